@@ -231,6 +231,7 @@ func runC15(p *core.Prog, r *core.Report) {
 	c15R4(p, r)
 	c15R5(p, r, pats)
 	c15R6(p, r)
+	c15R7(p, r)
 }
 
 // capture returns the sub-expression of capture group k.
@@ -853,5 +854,77 @@ func c15R6(p *core.Prog, r *core.Report) {
 	})
 	if n == 0 {
 		r.Held(rule, p.FuncName(fn), "fields printed as stored", p.Pos(fn.Pos()), "no string-rewriting call takes a field of the reference")
+	}
+}
+
+// c15R7: reject means reject. Where a caller sees the reference parser refuse an input, it does not
+// hand the same input to a parser of the package again (the looser host grammar accepts strings the
+// reference grammar refuses, and what comes back does not round-trip).
+func c15R7(p *core.Prog, r *core.Report) {
+	const rule = "C15.R7"
+	r.Rule(rule, "a refused input stays refused: from the error edge of a call of a parser of types/ref (string in, Ref and error out) no call of such a parser with the same argument is reachable within the same loop iteration", 2)
+	isParser := func(f *types.Func) bool {
+		if f == nil || f.Pkg() == nil || f.Pkg().Path() != modPath("types/ref") || !f.Exported() {
+			return false
+		}
+		sig := f.Type().(*types.Signature)
+		if sig.Recv() != nil || sig.Params().Len() != 1 || sig.Results().Len() != 2 {
+			return false
+		}
+		return isStringType(sig.Params().At(0).Type()) && core.IsModNamed(sig.Results().At(0).Type(), "types/ref", "Ref")
+	}
+	same := func(a, b ssa.Value) bool {
+		if a == b {
+			return true
+		}
+		la, ok1 := a.(*ssa.UnOp)
+		lb, ok2 := b.(*ssa.UnOp)
+		if ok1 && ok2 && la.Op == token.MUL && lb.Op == token.MUL {
+			ia, ok1 := la.X.(*ssa.IndexAddr)
+			ib, ok2 := lb.X.(*ssa.IndexAddr)
+			if ok1 && ok2 {
+				ka, okA := core.ConstInt(ia.Index)
+				kb, okB := core.ConstInt(ib.Index)
+				pa := accessPath(ia.X)
+				return okA && okB && ka == kb && pa != "" && pa == accessPath(ib.X)
+			}
+		}
+		pa := accessPath(a)
+		return pa != "" && !strings.Contains(pa, "[]") && !strings.Contains(pa, "@") && pa == accessPath(b)
+	}
+	n := 0
+	for _, fn := range p.ModFuncs {
+		if len(fn.Blocks) == 0 || fn.Synthetic != "" {
+			continue
+		}
+		lab := labeler{}
+		for _, ci := range core.CallsTo(fn, isParser) {
+			c, ok := ci.(*ssa.Call)
+			if !ok || len(c.Call.Args) != 1 {
+				continue
+			}
+			n++
+			label := lab.next("parse by " + core.Callee(c).Name())
+			var again *ssa.Call
+			for _, e := range errEdgesOf(fn, c) {
+				reach := core.Reach{StopEdge: func(from, to *ssa.BasicBlock) bool { return to.Dominates(from) }}
+				for in := range reach.FromEdge(e[0], e[1]) {
+					c2, ok := in.(*ssa.Call)
+					if ok && c2 != c && isParser(core.Callee(c2)) && len(c2.Call.Args) == 1 && same(c.Call.Args[0], c2.Call.Args[0]) {
+						if again == nil || c2.Pos() < again.Pos() {
+							again = c2
+						}
+					}
+				}
+			}
+			if again == nil {
+				r.Held(rule, p.FuncName(fn), label, p.Pos(c.Pos()), "no second parse of the same input after the parser refused it")
+			} else {
+				r.Violated(rule, p.FuncName(fn), label, p.Pos(again.Pos()), "after "+core.Callee(c).Name()+" refused the input, the same input is parsed by "+core.Callee(again).Name()+": a string outside the reference grammar is accepted under another reading")
+			}
+		}
+	}
+	if n == 0 {
+		r.MissingAnchor(rule, "calls of the parsers of types/ref")
 	}
 }
